@@ -173,7 +173,7 @@ def judge(part, pid, w, scn):
                  % ([n['cores'] for n in c.nodes], c._active_cnt))
 
     # exactly one final state: however the notifications reach the client,
-    # no component announces a second final state for a task
+    # no component announces a different, second final state for a task
     pubs = dict()
     for pub, msgs in sorted(w.client_fifos.items()):
         for m in msgs:
@@ -182,7 +182,7 @@ def judge(part, pid, w, scn):
                     pubs.setdefault(t['uid'], list()).append(
                                                         (t['state'], pub))
     for uid, fin in sorted(pubs.items()):
-        if len(fin) > 1:
+        if len(set(x[0] for x in fin)) > 1:
             viol('C05', 'final-published-twice', 'BaseComponent.advance',
                  '+'.join(sorted(x[0] for x in fin)),
                  '%s is announced in final states %s' % (uid, fin))
